@@ -23,4 +23,44 @@ func newIPFilter(spec *ipfilter.Spec) (f *ipfilter.IPFilter)
 func allowIP(ipFilter *ipfilter.IPFilter, ip string) (ok bool)
   requires ipFilter != nil ==> ipfilter.wfFilter(ipFilter)
   ensures ok == (ipFilter == nil || ipfilter.allows(ipFilter, ip))
+
+// ---- C01: which entry matches a request (written from the property statement) ----
+pred hostName(q *httpprot.Request) := hasPort(q.Request.Host) ? hostOnly(q.Request.Host) : q.Request.Host
+pred hostOK(r *muxRule, q *httpprot.Request) := (r.host == "" && r.hostRE == nil) || (r.host != "" && r.host == hostName(q)) || (r.hostRE != nil && reMatch(ref(r.hostRE), hostName(q)))
+pred pathOK(p *MuxPath, q *httpprot.Request) := (p.path == "" && p.pathPrefix == "" && p.pathRE == nil) || (p.path != "" && p.path == q.Request.URL.Path) || (p.pathPrefix != "" && hasPrefix(q.Request.URL.Path, p.pathPrefix)) || (p.pathRE != nil && reMatch(ref(p.pathRE), q.Request.URL.Path))
+pred methodOK(p *MuxPath, q *httpprot.Request) := len(p.methods) == 0 || stringtool.inSlice(q.Request.Method, p.methods)
+pred hdrVal(h *Header, q *httpprot.Request) := headerGet(ref(q.Request.Header), h.Key)
+pred hdrAllOK(h *Header, q *httpprot.Request) := (len(h.Values) == 0 || stringtool.inSlice(hdrVal(h, q), h.Values)) && (h.Regexp == "" || reMatch(ref(h.headerRE), hdrVal(h, q)))
+pred hdrAnyOK(h *Header, q *httpprot.Request) := stringtool.inSlice(hdrVal(h, q), h.Values) || (h.Regexp != "" && reMatch(ref(h.headerRE), hdrVal(h, q)))
+pred headersOK(p *MuxPath, q *httpprot.Request) := p.matchAllHeader ? (forall k int :: 0 <= k && k < len(p.headers) ==> hdrAllOK(p.headers[k], q)) : (exists k int :: 0 <= k && k < len(p.headers) && hdrAnyOK(p.headers[k], q))
+pred wfReq(q *httpprot.Request) := q != nil && q.Request != nil && q.Request.URL != nil
+pred wfPath(p *MuxPath) := p != nil && (forall k int :: 0 <= k && k < len(p.headers) ==> p.headers[k] != nil && (p.headers[k].Regexp != "" ==> p.headers[k].headerRE != nil)) && (p.ipFilter != nil ==> ipfilter.wfFilter(p.ipFilter))
+pred wfRule(r *muxRule) := r != nil && (forall j int :: 0 <= j && j < len(r.paths) ==> wfPath(r.paths[j])) && (r.ipFilter != nil ==> ipfilter.wfFilter(r.ipFilter))
+
+func (mr *muxRule) match(r *httpprot.Request) (ok bool)
+  requires mr != nil && wfReq(r)
+  ensures ok == hostOK(mr, r)
+
+func (mp *MuxPath) matchPath(r *httpprot.Request) (ok bool)
+  requires mp != nil && wfReq(r)
+  ensures ok == pathOK(mp, r)
+
+func (mp *MuxPath) matchMethod(r *httpprot.Request) (ok bool)
+  requires mp != nil && wfReq(r)
+  ensures ok == methodOK(mp, r)
+
+func (mp *MuxPath) matchHeaders(r *httpprot.Request) (ok bool)
+  requires wfPath(mp) && wfReq(r)
+  ensures ok == headersOK(mp, r)
+  invariant[1] forall k int :: 0 <= k && k < idx$1 ==> hdrAllOK(mp.headers[k], r)
+  invariant[2] forall k int :: 0 <= k && k < idx$2 ==> !hdrAnyOK(mp.headers[k], r)
+
+func (mp *MuxPath) rewrite(r *httpprot.Request)
+  requires mp != nil && wfReq(r)
+  requires matched: pathOK(mp, r)
+  modifies r.Request.URL.Path
+  ensures no-target-keeps-path: mp.rewriteTarget == "" ==> r.Request.URL.Path == old(r.Request.URL.Path)
+  ensures exact: mp.rewriteTarget != "" && mp.path != "" && mp.path == old(r.Request.URL.Path) ==> r.Request.URL.Path == mp.rewriteTarget
+  ensures prefix: mp.rewriteTarget != "" && !(mp.path != "" && mp.path == old(r.Request.URL.Path)) && mp.pathPrefix != "" && hasPrefix(old(r.Request.URL.Path), mp.pathPrefix) ==> r.Request.URL.Path == mp.rewriteTarget ++ substr(old(r.Request.URL.Path), len(mp.pathPrefix), len(old(r.Request.URL.Path)) - len(mp.pathPrefix))
+  ensures regexp: mp.rewriteTarget != "" && !(mp.path != "" && mp.path == old(r.Request.URL.Path)) && !(mp.pathPrefix != "" && hasPrefix(old(r.Request.URL.Path), mp.pathPrefix)) ==> r.Request.URL.Path == (mp.pathRE != nil ? reReplace(ref(mp.pathRE), old(r.Request.URL.Path), mp.rewriteTarget) : old(r.Request.URL.Path))
 @*/
